@@ -60,9 +60,34 @@ fn entry_line() -> BoxedStrategy<Vec<u8>> {
     .boxed()
 }
 
+fn non_file_line() -> BoxedStrategy<Vec<u8>> {
+    prop::sample::select(vec![
+        "@mode 0644", "@owner root", "@group wheel", "@comment x", "@pkgdir share/x", "@exec true", "@unexec true", "@dirrm share/x",
+        "@cwd /usr/pkg", "@mode", "@display MSG", "@pkgdep a>=1",
+    ])
+    .prop_map(|s| s.as_bytes().to_vec())
+    .boxed()
+}
+
 fn case_strategy(tier: Tier) -> BoxedStrategy<Case> {
     let max = tier.pick(30, 40);
-    prop::collection::vec(entry_line(), 0..=max).prop_map(|ls| Case { lines: ls.into_iter().map(B).collect() }).boxed()
+    prop_oneof![
+        40 => prop::collection::vec(entry_line(), 0..=max),
+        // an @ignore separated from its file by a long run of other commands
+        2 => (prop::collection::vec(entry_line(), 0..6), prop::collection::vec(non_file_line(), 20..70), prop::collection::vec(entry_line(), 1..8))
+            .prop_map(|(a, run, b)| {
+                let mut v = a;
+                v.push(b"@ignore".to_vec());
+                v.extend(run);
+                v.push(b"bin/after-the-run".to_vec());
+                v.extend(b);
+                v
+            }),
+        // long lists
+        1 => prop::collection::vec(entry_line(), 100..300),
+    ]
+    .prop_map(|ls| Case { lines: ls.into_iter().map(B).collect() })
+    .boxed()
 }
 
 fn os(b: &[u8]) -> OsString {
@@ -122,6 +147,18 @@ pub fn check(c: &Case, obs: &mut Obs) -> Result<(), String> {
     let want_pres = entries.iter().any(|e| matches!(e, PlistEntry::PkgOpt(PlistOption::Preserve)));
     cmp!("is_preserve()", p.is_preserve(), want_pres);
 
+    // asking again, in another order, gives the same answers (a view keeps no state)
+    let again_un: Vec<&PlistEntry> = p.uninstall_cmds();
+    let again_in: Vec<&PlistEntry> = p.install_cmds();
+    let again_files: Vec<OsString> = p.files().into_iter().map(|f| f.to_os_string()).collect();
+    obs.verdicts += 1;
+    if again_in != m::cmd_indices(&entries, false).into_iter().map(|i| &entries[i]).collect::<Vec<_>>()
+        || again_un != m::cmd_indices(&entries, true).into_iter().map(|i| &entries[i]).collect::<Vec<_>>()
+        || again_files != m::files(&entries)
+        || p.files_prefixed() != m::files_prefixed(&entries)
+    {
+        return Err(format!("a second round of view calls on the same Plist gives different answers\ninput: {:?}", B(doc.clone())));
+    }
     // metamorphic cross-check between the four file views
     let inst_files: Vec<OsString> = p.install_cmds().into_iter().filter_map(|e| if let PlistEntry::File(f) = e { Some(f.clone()) } else { None }).collect();
     let un_files: Vec<OsString> = p.uninstall_cmds().into_iter().filter_map(|e| if let PlistEntry::File(f) = e { Some(f.clone()) } else { None }).collect();
